@@ -159,7 +159,19 @@ pub fn run(tier: Tier) -> i32 {
     match tier {
         Tier::Quick => work.extend(lists(&core, 3)),
         Tier::Thorough => {
-            work.extend(lists(&all, 3));
+            // all triples with at least two members in the core (every shape meets every pair of core shapes in every
+            // position); the full cube over the 384 shapes would be 56 M lists
+            for a in &all {
+                for b in &core {
+                    for c in &core {
+                        work.push(vec![*a, *b, *c]);
+                        if !core.contains(a) {
+                            work.push(vec![*b, *a, *c]);
+                            work.push(vec![*b, *c, *a]);
+                        }
+                    }
+                }
+            }
             let small: Vec<Shape> = core.iter().copied().step_by(2).collect();
             work.extend(lists(&small, 4));
         }
@@ -208,8 +220,8 @@ pub fn run(tier: Tier) -> i32 {
         .set("samples", json!(samples.take()))
         .set("exhaustive", json!(true))
         .set("bound", json!(match tier {
-            Tier::Quick => "all lists of <=2 rules over the 168 shapes and all lists of 3 over the 40-shape core; 4 rank patterns x 3 overrides x 4 codes",
-            Tier::Thorough => "all lists of <=3 rules over the 168 shapes and all lists of 4 over a 20-shape core; 4 rank patterns x 3 overrides x 4 codes",
+            Tier::Quick => "all lists of <=2 rules over the 384 shapes (4 conditions x 12 controls x 8 payloads) and all lists of 3 over the 47-shape core; 4 rank patterns x 3 overrides x 4 codes; each case also with a unit trace",
+            Tier::Thorough => "all lists of <=2 rules over the 384 shapes, all lists of 3 with at least two members in the 47-shape core, all lists of 4 over a 24-shape core; 4 rank patterns x 3 overrides x 4 codes; each case also with a unit trace",
         }));
     cov.assume("sampling rates other than 0/100 depend on a random draw and are outside the alphabet (the statement only fixes 0, 100 and the override)")
         .assume("routes are handed to Action::from_routes_rule in a rotated (unsorted) order; a 1-in-64 stride goes through a real Router");
